@@ -220,8 +220,16 @@ func (o *Operator) HandleDeploy(ctx context.Context, req *workerpb.DeployOperato
 	// is replaced). It then restores another operator's files and numbers its new
 	// files from those, while the files it wrote for its previous range are
 	// being restored by that range's new owner: they must not share a directory.
+	//
+	// Every deployment also gets a directory of its own: the database instance
+	// of the previous deployment is dropped without being stopped, and a new
+	// instance in the same directory (the operator kept its range, restored from
+	// an older checkpoint or from none) would number its files from an earlier
+	// point on and save its own checkpoints document over the previous
+	// instance's - which a checkpoint the job is still writing may refer to.
 	rangeDir := fmt.Sprintf("%d-%d", o.keyGroupRange.Start, o.keyGroupRange.End)
-	fs, err := storage.NewFileSystemFromLocation(storage.Join(req.StorageLocation, o.id, rangeDir))
+	deploymentDir := fmt.Sprintf("%d", o.deployments)
+	fs, err := storage.NewFileSystemFromLocation(storage.Join(req.StorageLocation, o.id, rangeDir, deploymentDir))
 	if err != nil {
 		return fmt.Errorf("creating filesystem: %w", err)
 	}
